@@ -2,8 +2,9 @@
 C11 — Privileged endpoints reject callers without the specific authority.
 
 Two kinds of theorem:
-* about the *model* (`PvModel.Perms`): for all states, endpoints, callers, permission updates
-  and operation histories;
+* about the *model* (`PvModel.Perms`): for all states, endpoints, callers (address TEXTS: an
+  account under its lower-case, upper-case or a mixed-case spelling), permission updates and
+  operation histories;
 * about the *regenerated facts* (`Generated.Handlers`, re-extracted from /repo's Go source on
   every run): every market endpoint is dominated by the `Can*` guard of the documented
   permission, every `Can*` helper passes the documented `Permission_*` constant, every
@@ -21,37 +22,75 @@ open PvModel.Perms PvProofs.Facts
 
 /-! ## Model theorems -/
 
-/-- An endpoint lets a caller through iff the caller is the authority or holds exactly the
-endpoint's permission on exactly that market. -/
-theorem endpoint_allowed_iff (s : State) (e : Endpoint) (m : Nat) (c : String) :
-    endpointAllowed s e m c = true ↔ c = s.authority ∨ (m, c, e.required) ∈ s.grants := by
-  simp [endpointAllowed, hasPermission, storeHas]
+/-- `Keeper.HasPermission` on the TEXT `a` of an address field: true iff the letters of `a` are
+the authority's (whatever their case — `strings.EqualFold`) or `a` decodes
+(`sdk.AccAddressFromBech32`) to an account holding exactly `(m, account, p)`. -/
+theorem hasPermission_iff (s : State) (m : Nat) (a : Text) (p : Perm) :
+    hasPermission s m a p = true ↔
+      a.fold = s.authority ∨ ∃ x, a.decode = some x ∧ (m, x, p) ∈ s.grants := by
+  unfold hasPermission isAuthority storeHas
+  cases h : a.decode <;> simp
+
+/-- An endpoint lets a caller through iff the caller's text spells the authority or decodes to an
+account that holds exactly the endpoint's permission on exactly that market. -/
+theorem endpoint_allowed_iff (s : State) (e : Endpoint) (m : Nat) (c : Text) :
+    endpointAllowed s e m c = true ↔
+      c.fold = s.authority ∨ ∃ x, c.decode = some x ∧ (m, x, e.required) ∈ s.grants :=
+  hasPermission_iff s m c e.required
+
+/-- For the two spellings under which a transaction can be signed (lower-case and all-upper-case
+bech32 text of the same account) the answer is the same: authority or exactly the triple. -/
+theorem endpoint_allowed_iff_account (s : State) (e : Endpoint) (m : Nat) (a : String) (sp : Spelling)
+    (hsp : sp ≠ .mixed) :
+    endpointAllowed s e m { acc := a, sp := sp } = true ↔ a = s.authority ∨ (m, a, e.required) ∈ s.grants := by
+  rw [endpoint_allowed_iff]
+  cases sp <;> simp_all [Text.fold, Text.decode]
+
+/-- The upper-case spelling of an account opens exactly what its usual spelling opens. -/
+theorem endpoint_spelling_irrelevant (s : State) (e : Endpoint) (m : Nat) (a : String) :
+    endpointAllowed s e m { acc := a, sp := .upper } = endpointAllowed s e m { acc := a, sp := .lower } := by
+  rw [Bool.eq_iff_iff, endpoint_allowed_iff_account s e m a .upper (by decide),
+    endpoint_allowed_iff_account s e m a .lower (by decide)]
+
+/-- A mixed-case text passes only as a spelling of the authority: no grant helps it. -/
+theorem endpoint_mixed_case_only_authority (s : State) (e : Endpoint) (m : Nat) (a : String) :
+    endpointAllowed s e m { acc := a, sp := .mixed } = true ↔ a = s.authority := by
+  rw [endpoint_allowed_iff]; simp [Text.fold, Text.decode]
 
 /-- No other permission, and no permission on another market, helps. -/
-theorem endpoint_needs_its_perm (s : State) (e : Endpoint) (m : Nat) (c : String)
-    (hc : c ≠ s.authority) (hg : (m, c, e.required) ∉ s.grants) :
+theorem endpoint_needs_its_perm (s : State) (e : Endpoint) (m : Nat) (c : Text)
+    (hc : c.fold ≠ s.authority) (hg : (m, c.acc, e.required) ∉ s.grants) :
     endpointAllowed s e m c = false := by
   cases h : endpointAllowed s e m c
   · rfl
-  · rcases (endpoint_allowed_iff s e m c).mp h with h1 | h1
+  · rcases (endpoint_allowed_iff s e m c).mp h with h1 | ⟨x, hx, h1⟩
     · exact absurd h1 hc
-    · exact absurd h1 hg
+    · have : x = c.acc := by
+        unfold Text.decode at hx; split at hx <;> simp_all
+      exact absurd (this ▸ h1) hg
 
 /-- Permissions held by other accounts / on other markets / of other kinds are irrelevant:
 two states that agree on the one triple give the same answer. -/
-theorem endpoint_depends_only_on_its_triple (s₁ s₂ : State) (e : Endpoint) (m : Nat) (c : String)
+theorem endpoint_depends_only_on_its_triple (s₁ s₂ : State) (e : Endpoint) (m : Nat) (c : Text)
     (ha : s₁.authority = s₂.authority)
-    (h : (m, c, e.required) ∈ s₁.grants ↔ (m, c, e.required) ∈ s₂.grants) :
+    (h : (m, c.acc, e.required) ∈ s₁.grants ↔ (m, c.acc, e.required) ∈ s₂.grants) :
     endpointAllowed s₁ e m c = endpointAllowed s₂ e m c := by
-  have h1 := endpoint_allowed_iff s₁ e m c
-  have h2 := endpoint_allowed_iff s₂ e m c
-  rw [ha, h] at h1
-  cases hx : endpointAllowed s₁ e m c <;> cases hy : endpointAllowed s₂ e m c <;> simp_all
+  rw [Bool.eq_iff_iff, endpoint_allowed_iff, endpoint_allowed_iff, ha]
+  cases hd : c.decode with
+  | none => simp
+  | some x =>
+    have : x = c.acc := by
+      unfold Text.decode at hd; split at hd <;> simp_all
+    subst this; simp [h]
 
-example : endpointAllowed { grants := [(1, "A", .settle)] } .MarketSettle 1 "A" = true ∧
-    endpointAllowed { grants := [(1, "A", .settle)] } .MarketSettle 2 "A" = false ∧
-    endpointAllowed { grants := [(1, "A", .settle)] } .MarketWithdraw 1 "A" = false ∧
-    endpointAllowed { grants := [(1, "A", .settle)] } .MarketWithdraw 1 "GOV" = true := by decide
+example : endpointAllowed { grants := [(1, "A", .settle)] } .MarketSettle 1 ⟨"A", .lower⟩ = true ∧
+    endpointAllowed { grants := [(1, "A", .settle)] } .MarketSettle 1 ⟨"A", .upper⟩ = true ∧
+    endpointAllowed { grants := [(1, "A", .settle)] } .MarketSettle 1 ⟨"A", .mixed⟩ = false ∧
+    endpointAllowed { grants := [(1, "A", .settle)] } .MarketSettle 2 ⟨"A", .lower⟩ = false ∧
+    endpointAllowed { grants := [(1, "A", .settle)] } .MarketWithdraw 1 ⟨"A", .upper⟩ = false ∧
+    endpointAllowed { grants := [(1, "A", .settle)] } .MarketWithdraw 1 ⟨"GOV", .lower⟩ = true ∧
+    endpointAllowed { grants := [(1, "A", .settle)] } .MarketWithdraw 1 ⟨"GOV", .upper⟩ = true ∧
+    endpointAllowed { grants := [(1, "A", .settle)] } .MarketWithdraw 1 ⟨"GOV", .mixed⟩ = true := by decide
 
 /-! ### Granting and revoking: exact effect and frame -/
 
@@ -190,7 +229,7 @@ theorem opResult_fst (r : Except String State) (s : State) :
   cases r <;> rfl
 
 /-- Order and payment operations never touch permissions or the authority. -/
-theorem cancelOrder_keeps {s s' : State} {id : Nat} {sg : String} (h : cancelOrder s id sg = .ok s') :
+theorem cancelOrder_keeps {s s' : State} {id : Nat} {sg : Text} (h : cancelOrder s id sg = .ok s') :
     s'.grants = s.grants ∧ s'.authority = s.authority := by
   unfold cancelOrder at h
   split at h
@@ -241,11 +280,11 @@ theorem opResult_keeps {r : Except String State} {s : State}
 
 /-- Every op other than a *permitted, successful* permissions update leaves all grants as they
 were; a permissions update by a caller without the `permissions` right (and not the
-authority) is rejected and changes nothing. -/
+authority) is rejected and changes nothing.  A permitted successful update is answered `ok`. -/
 theorem grants_change_only_by_permitted_update (s : State) (op : Op) :
     (applyOp s op).1.grants = s.grants ∨
     ∃ admin m u, op = .perms admin m u ∧ endpointAllowed s .MarketManagePermissions m admin = true ∧
-      updatePermissions s m u = .ok (applyOp s op).1 := by
+      updatePermissions s m u = .ok (applyOp s op).1 ∧ (applyOp s op).2 = "ok" := by
   cases op with
   | perms admin m u =>
     simp only [applyOp]
@@ -253,9 +292,10 @@ theorem grants_change_only_by_permitted_update (s : State) (op : Op) :
     · simp only [ha, Bool.not_true, Bool.false_eq_true, if_false]
       cases hu : updatePermissions s m u with
       | error e => left; rfl
-      | ok s' => right; exact ⟨admin, m, u, rfl, ha, by rw [hu]; rfl⟩
+      | ok s' => right; exact ⟨admin, m, u, rfl, ha, by rw [hu]; rfl, rfl⟩
     · left; simp [ha]
   | call e m c => left; rfl
+  | hasperm m a p => left; rfl
   | order id m o => left; rfl
   | cancel id sg => left; exact (opResult_keeps fun s' h => cancelOrder_keeps h).1
   | pay a b c => left; exact (opResult_keeps fun s' h => createPayment_keeps h).1
@@ -275,6 +315,7 @@ theorem applyOp_authority (s : State) (op : Op) : (applyOp s op).1.authority = s
       | error e => rfl
       | ok s' => exact (updatePermissions_rest hu).1
   | call e m c => rfl
+  | hasperm m a p => rfl
   | order id m o => rfl
   | cancel id sg => exact (opResult_keeps fun s' h => cancelOrder_keeps h).2
   | pay a b c => exact (opResult_keeps fun s' h => createPayment_keeps h).2
@@ -292,10 +333,12 @@ theorem authority_constant (s : State) (ops : List Op) : (run s ops).authority =
     simp only [run, List.foldl_cons] at *
     rw [ih, applyOp_authority]
 
-/-- Over any history: a caller who is not the authority and whom no permitted update ever
-granted the endpoint's permission is rejected at the end — stated as an invariant:
-if a set of triples `P` contains the initial grants and is closed under every successful
-permitted update of the history, all grants stay inside `P`. -/
+theorem run_cons (s : State) (op : Op) (rest : List Op) :
+    run s (op :: rest) = run (applyOp s op).1 rest := rfl
+
+/-- Invariant schema: if a set of triples `P` contains the initial grants and is closed under
+every successful permitted update of the history, all grants stay inside `P`.  Instantiated
+below (`never_granted_stays_out`, `never_granted_is_rejected`). -/
 theorem grants_within (P : Grant → Prop) (s : State) (ops : List Op)
     (h0 : ∀ g ∈ s.grants, P g)
     (hstep : ∀ (t : State) admin m u t', (∀ g ∈ t.grants, P g) →
@@ -307,18 +350,99 @@ theorem grants_within (P : Grant → Prop) (s : State) (ops : List Op)
   | cons op rest ih =>
     simp only [run, List.foldl_cons]
     apply ih
-    rcases grants_change_only_by_permitted_update s op with h | ⟨admin, m, u, _, ha, hu⟩
+    rcases grants_change_only_by_permitted_update s op with h | ⟨admin, m, u, _, ha, hu, _⟩
     · rw [h]; exact h0
     · exact hstep s admin m u _ h0 ha hu
+
+/-- "An ACCEPTED permissions request of the history names `(x, p)` as a grant on market `m`":
+the history splits as `pre ++ perms admin m u :: post`, that request is answered `ok` in the
+state `pre` leads to, and its `ToGrant` list names the account with the permission. -/
+def GrantedIn (s : State) (ops : List Op) (m : Nat) (x : String) (p : Perm) : Prop :=
+  ∃ pre admin u post, ops = pre ++ Op.perms admin m u :: post ∧
+    (applyOp (run s pre) (.perms admin m u)).2 = "ok" ∧ Named u.toGrant x p
+
+/-- **Over every history**: a triple that is not granted at the start and that no accepted
+permissions request of the history names as a grant is not granted at the end — whatever else
+happens (grants to other accounts, of other permissions, on other markets, rejected requests
+naming it, order and payment traffic, governance requests). -/
+theorem never_granted_stays_out (s : State) (ops : List Op) (m : Nat) (x : String) (p : Perm)
+    (h0 : (m, x, p) ∉ s.grants) (hno : ¬ GrantedIn s ops m x p) :
+    (m, x, p) ∉ (run s ops).grants := by
+  induction ops generalizing s with
+  | nil => exact h0
+  | cons op rest ih =>
+    rw [run_cons]
+    apply ih
+    · rcases grants_change_only_by_permitted_update s op with h | ⟨admin, m', u, hop, _, hu, hok⟩
+      · rw [h]; exact h0
+      · intro hmem
+        rcases (updatePermissions_effect hu (m, x, p)).mp hmem with h1 | ⟨hm, hn⟩
+        · exact h0 h1.1
+        · simp only at hm hn
+          subst hm
+          exact hno ⟨[], admin, u, rest, by rw [hop]; rfl, by rw [← hop]; exact hok, hn⟩
+    · rintro ⟨pre, admin, u, post, hsplit, hok, hn⟩
+      exact hno ⟨op :: pre, admin, u, post, by rw [hsplit]; rfl, by rw [run_cons]; exact hok, hn⟩
+
+/-- Target form: over every history, a caller that is not the authority, whose account does not
+hold `(m, account, e.required)` at the start and is never named with that permission on that
+market by an accepted permissions request, is rejected by endpoint `e` at the end — under every
+spelling of its address. -/
+theorem never_granted_is_rejected (s : State) (ops : List Op) (e : Endpoint) (m : Nat) (c : Text)
+    (hc : c.fold ≠ s.authority) (h0 : (m, c.acc, e.required) ∉ s.grants)
+    (hno : ¬ GrantedIn s ops m c.acc e.required) :
+    endpointAllowed (run s ops) e m c = false :=
+  endpoint_needs_its_perm _ e m c (by rw [authority_constant]; exact hc)
+    (never_granted_stays_out s ops m c.acc e.required h0 hno)
+
+/-- The hypotheses are satisfiable on a history in which the caller IS granted other things:
+`A` gets `settle` on market 1 and `withdraw` on market 2, `B` gets `withdraw` on market 1, a
+request by `A` (who lacks `permissions`) naming `A:withdraw` on market 1 is rejected — and `A`
+is still turned away from `MarketWithdraw` on market 1. -/
+def exampleHistory : List Op := [
+  .perms ⟨"GOV", .upper⟩ 1 { revokeAll := [], toRevoke := [], toGrant := [("A", [.settle]), ("B", [.withdraw, .permissions])] },
+  .perms ⟨"GOV", .lower⟩ 2 { revokeAll := [], toRevoke := [], toGrant := [("A", [.withdraw])] },
+  .perms ⟨"A", .lower⟩ 1 { revokeAll := [], toRevoke := [], toGrant := [("A", [.withdraw])] },
+  .call .MarketSettle 1 ⟨"A", .upper⟩]
+
+example : ((exampleHistory.foldl (fun (acc : State × List String) op =>
+      ((applyOp acc.1 op).1, acc.2 ++ [(applyOp acc.1 op).2])) ({}, [])).2
+      = ["ok", "ok", "err:perm", "pass"]) ∧
+    endpointAllowed (run {} exampleHistory) .MarketWithdraw 1 ⟨"A", .upper⟩ = false ∧
+    endpointAllowed (run {} exampleHistory) .MarketWithdraw 2 ⟨"A", .upper⟩ = true := by decide
+
+/-- … and the converse, so that the hypothesis is the right one: right after an accepted request
+naming `(x, p)` on `m` the triple IS granted. -/
+theorem accepted_grant_takes_effect (s : State) (admin : Text) (m : Nat) (u : PermUpdate) (x : String) (p : Perm)
+    (hok : (applyOp s (.perms admin m u)).2 = "ok") (hn : Named u.toGrant x p) :
+    (m, x, p) ∈ (applyOp s (.perms admin m u)).1.grants := by
+  simp only [applyOp] at hok ⊢
+  split at hok
+  · exact absurd hok (by simp)
+  · rename_i ha
+    simp only [ha]
+    cases hu : updatePermissions s m u with
+    | error e =>
+      rw [hu] at hok
+      simp only [opResult] at hok
+      have := congrArg String.length hok
+      rw [String.length_append] at this
+      have h4 : ("err:" : String).length = 4 := by decide
+      have h2 : ("ok" : String).length = 2 := by decide
+      omega
+    | ok s' =>
+      simp only [opResult]
+      exact (updatePermissions_effect hu (m, x, p)).mpr (Or.inr ⟨rfl, hn⟩)
 
 /-! ### Orders and payments -/
 
 /-- Users can cancel only their own orders (or hold the market's `cancel` permission / be
 the authority). -/
-theorem cancel_own_or_perm {s s' : State} {id : Nat} {signer : String}
+theorem cancel_own_or_perm {s s' : State} {id : Nat} {signer : Text}
     (h : cancelOrder s id signer = .ok s') :
     ∃ o ∈ s.orders, o.id = id ∧
-      (signer = o.owner ∨ signer = s.authority ∨ (o.market, signer, Perm.cancel) ∈ s.grants) := by
+      (signer = o.owner ∨ signer.fold = s.authority ∨
+        ∃ x, signer.decode = some x ∧ (o.market, x, Perm.cancel) ∈ s.grants) := by
   unfold cancelOrder at h
   split at h
   · cases h
@@ -334,7 +458,7 @@ theorem cancel_own_or_perm {s s' : State} {id : Nat} {signer : String}
       · right
         have : hasPermission s o.market signer .cancel = true := by
           by_contra hc; exact hn ⟨hso, by simpa using hc⟩
-        simpa [hasPermission, storeHas] using this
+        exact (hasPermission_iff s o.market signer .cancel).mp this
 
 /-- A payment is accepted / rejected only by its current target … -/
 theorem accept_only_by_target {s s' : State} {source ext signer : String}
@@ -433,24 +557,233 @@ theorem changeTarget_frame {s s' : State} {signer ext nt : String} (q : Payment)
         have : ¬ (q.source = signer ∧ q.extId = ext) := fun hc => hq hc.1
         simp [this]
 
-/-- A governance-only endpoint lets exactly the authority through. -/
-theorem gov_only_authority (s : State) (c : String) : govAllowed s c = true ↔ c = s.authority := by
-  simp [govAllowed]
+/-! ### Exact effect of the order and payment operations (what is removed, what is untouched) -/
+
+theorem findPayment_some {s : State} {a b : String} {p : Payment} (h : findPayment s a b = some p) :
+    p ∈ s.payments ∧ p.source = a ∧ p.extId = b := by
+  unfold findPayment at h
+  have hf := List.find?_some h
+  simp only [decide_eq_true_eq] at hf
+  exact ⟨List.mem_of_find?_eq_some h, hf.1, hf.2⟩
+
+theorem mem_removePayment (s : State) (p q : Payment) :
+    q ∈ (removePayment s p).payments ↔ q ∈ s.payments ∧ ¬ (q.source = p.source ∧ q.extId = p.extId) := by
+  simp only [removePayment, List.mem_filter, Bool.not_eq_eq_eq_not, Bool.not_true,
+    decide_eq_false_iff_not]
+
+theorem removePayment_rest (s : State) (p : Payment) :
+    (removePayment s p).orders = s.orders ∧ (removePayment s p).grants = s.grants ∧
+      (removePayment s p).authority = s.authority := ⟨rfl, rfl, rfl⟩
+
+/-- **Cancel, both directions and exact effect**: a cancel succeeds iff the order exists and the
+signer's text is the stored owner text or passes the `cancel` guard of the order's market; then
+exactly the orders with that id are gone and nothing else changes (no other order, no grant, no
+payment). -/
+theorem cancelOrder_ok_iff (s s' : State) (id : Nat) (signer : Text) :
+    cancelOrder s id signer = .ok s' ↔
+      ∃ o, s.orders.find? (·.id = id) = some o ∧
+        (signer = o.owner ∨ hasPermission s o.market signer .cancel = true) ∧
+        s' = { s with orders := s.orders.filter (·.id ≠ id) } := by
+  unfold cancelOrder
+  cases hf : s.orders.find? (·.id = id) with
+  | none => simp
+  | some o =>
+    simp only [Option.some.injEq, exists_eq_left']
+    by_cases he : signer = o.owner ∨ hasPermission s o.market signer .cancel = true
+    · have hn : ¬ (signer ≠ o.owner ∧ (!hasPermission s o.market signer .cancel) = true) := by
+        rintro ⟨h1, h2⟩
+        rcases he with he | he
+        · exact h1 he
+        · simp [he] at h2
+      rw [if_neg hn]
+      constructor
+      · intro h; cases h; exact ⟨he, rfl⟩
+      · rintro ⟨_, h⟩; rw [h]
+    · have hn : signer ≠ o.owner ∧ (!hasPermission s o.market signer .cancel) = true := by
+        refine ⟨fun h => he (Or.inl h), ?_⟩
+        cases hp : hasPermission s o.market signer .cancel
+        · rfl
+        · exact absurd (Or.inr hp) he
+      rw [if_pos hn]
+      constructor
+      · intro h; cases h
+      · rintro ⟨h, _⟩; exact absurd h he
+
+/-- The converse the checker's `fail:cancel_rejects_entitled` clause evaluates: an entitled signer
+is never answered `err:perm` — the cancel succeeds. -/
+theorem cancel_entitled_succeeds (s : State) (id : Nat) (signer : Text) (o : Order)
+    (ho : s.orders.find? (·.id = id) = some o)
+    (he : signer = o.owner ∨ hasPermission s o.market signer .cancel = true) :
+    cancelOrder s id signer = .ok { s with orders := s.orders.filter (·.id ≠ id) } :=
+  (cancelOrder_ok_iff s _ id signer).mpr ⟨o, ho, he, rfl⟩
+
+example : cancelOrder { orders := [⟨7, 1, ⟨"A", .lower⟩⟩, ⟨8, 1, ⟨"B", .lower⟩⟩], grants := [(1, "C", .cancel)] } 7 ⟨"C", .upper⟩
+    = .ok { orders := [⟨8, 1, ⟨"B", .lower⟩⟩], grants := [(1, "C", .cancel)] } := by rfl
+
+/-- Frame of a cancel: every other order stays, grants / payments / authority are untouched. -/
+theorem cancelOrder_frame {s s' : State} {id : Nat} {signer : Text} (h : cancelOrder s id signer = .ok s') :
+    (∀ o, o ∈ s'.orders ↔ o ∈ s.orders ∧ o.id ≠ id) ∧
+      s'.payments = s.payments ∧ s'.grants = s.grants ∧ s'.authority = s.authority := by
+  obtain ⟨o, _, _, rfl⟩ := (cancelOrder_ok_iff s s' id signer).mp h
+  refine ⟨fun o => ?_, rfl, rfl, rfl⟩
+  simp [List.mem_filter]
+
+/-- The owner comparison of `CancelOrder` is on the TEXTS (`signer != orderOwner`): an order
+stored under the upper-case text of its owner's address cannot be cancelled by the SAME account
+signing under its usual lower-case text (and vice versa), unless it holds `cancel`.  So the
+account-level converse "the owner can always cancel his order" is FALSE in the model — and in
+the implementation (corpus/C11/perm.spelling.ops replays this on the real keeper). -/
+theorem cancel_owner_other_spelling_rejected :
+    cancelOrder { orders := [⟨7, 1, ⟨"A", .upper⟩⟩] } 7 ⟨"A", .lower⟩ = .error "perm" ∧
+    cancelOrder { orders := [⟨7, 1, ⟨"A", .lower⟩⟩] } 7 ⟨"A", .upper⟩ = .error "perm" ∧
+    (∃ s', cancelOrder { orders := [⟨7, 1, ⟨"A", .upper⟩⟩] } 7 ⟨"A", .upper⟩ = .ok s') := by
+  refine ⟨by rfl, by rfl, _, rfl⟩
+
+/-- **Accept**: succeeds only for the current target, removes exactly the payment `(source, ext)`
+— every other payment, of the same source under another external id included, stays as it is —
+and touches nothing else. -/
+theorem acceptPayment_effect {s s' : State} {source ext signer : String}
+    (h : acceptPayment s source ext signer = .ok s') :
+    (∀ q, q ∈ s'.payments ↔ q ∈ s.payments ∧ ¬ (q.source = source ∧ q.extId = ext)) ∧
+      s'.orders = s.orders ∧ s'.grants = s.grants ∧ s'.authority = s.authority := by
+  unfold acceptPayment at h
+  split at h
+  · cases h
+  · split at h
+    · cases h
+    · rename_i p hp
+      obtain ⟨_, h1, h2⟩ := findPayment_some hp
+      split at h
+      · cases h
+      · cases h
+        exact ⟨fun q => by rw [mem_removePayment, h1, h2], removePayment_rest s p⟩
+
+/-- **Reject**: the same exact effect. -/
+theorem rejectPayment_effect {s s' : State} {source ext signer : String}
+    (h : rejectPayment s source ext signer = .ok s') :
+    (∀ q, q ∈ s'.payments ↔ q ∈ s.payments ∧ ¬ (q.source = source ∧ q.extId = ext)) ∧
+      s'.orders = s.orders ∧ s'.grants = s.grants ∧ s'.authority = s.authority := by
+  unfold rejectPayment at h
+  split at h
+  · cases h
+  · rename_i p hp
+    obtain ⟨_, h1, h2⟩ := findPayment_some hp
+    split at h
+    · cases h
+    · split at h
+      · cases h
+      · cases h
+        exact ⟨fun q => by rw [mem_removePayment, h1, h2], removePayment_rest s p⟩
+
+/-- **Cancel payment**: removes exactly `(signer, ext)`; the signer's payments under other
+external ids and every other source's payments stay (strengthens `cancelPayment_frame`). -/
+theorem cancelPayment_effect {s s' : State} {signer ext : String}
+    (h : cancelPayment s signer ext = .ok s') :
+    (∀ q, q ∈ s'.payments ↔ q ∈ s.payments ∧ ¬ (q.source = signer ∧ q.extId = ext)) ∧
+      s'.orders = s.orders ∧ s'.grants = s.grants ∧ s'.authority = s.authority := by
+  unfold cancelPayment at h
+  split at h
+  · cases h
+  · rename_i p hp
+    obtain ⟨_, h1, h2⟩ := findPayment_some hp
+    cases h
+    exact ⟨fun q => by rw [mem_removePayment, h1, h2], removePayment_rest s p⟩
+
+/-- **Retarget**: every payment other than `(signer, ext)` — the signer's other external ids
+included — is untouched; the payments `(signer, ext)` keep everything but the target, which
+becomes the new one (strengthens `changeTarget_frame`). -/
+theorem changeTarget_effect {s s' : State} {signer ext nt : String}
+    (h : changeTarget s signer ext nt = .ok s') :
+    (∀ q, ¬ (q.source = signer ∧ q.extId = ext) → (q ∈ s'.payments ↔ q ∈ s.payments)) ∧
+    (∀ q, q.source = signer ∧ q.extId = ext →
+      (q ∈ s'.payments ↔ q.target = nt ∧ ∃ q0 ∈ s.payments, q0.source = signer ∧ q0.extId = ext)) ∧
+      s'.orders = s.orders ∧ s'.grants = s.grants ∧ s'.authority = s.authority := by
+  unfold changeTarget at h
+  split at h
+  · cases h
+  · split at h
+    · cases h
+    · cases h
+      refine ⟨fun q hq => ?_, fun q hq => ?_, rfl, rfl, rfl⟩
+      · simp only [List.mem_map]
+        constructor
+        · rintro ⟨x, hx, hxq⟩
+          by_cases hc : x.source = signer ∧ x.extId = ext
+          · simp only [hc, and_self, if_true] at hxq
+            exact absurd (by rw [← hxq]; exact ⟨rfl, rfl⟩) hq
+          · simp only [hc, if_false] at hxq
+            rw [← hxq]; exact hx
+        · intro hm
+          exact ⟨q, hm, by simp [hq]⟩
+      · simp only [List.mem_map]
+        constructor
+        · rintro ⟨x, hx, hxq⟩
+          by_cases hc : x.source = signer ∧ x.extId = ext
+          · simp only [hc, and_self, if_true] at hxq
+            exact ⟨by rw [← hxq], x, hx, hc⟩
+          · simp only [hc, if_false] at hxq
+            exact absurd (hxq ▸ hq) hc
+        · rintro ⟨ht, q0, hq0, hc⟩
+          refine ⟨q0, hq0, ?_⟩
+          simp only [hc, and_self, if_true]
+          obtain ⟨a, b, c⟩ := q
+          obtain ⟨a0, b0, c0⟩ := q0
+          simp_all
+
+example : ∃ s', acceptPayment { payments := [⟨"A", "x0", "B"⟩, ⟨"A", "x1", "B"⟩, ⟨"C", "x0", "B"⟩] } "A" "x0" "B" = .ok s' ∧
+    s'.payments = [⟨"A", "x1", "B"⟩, ⟨"C", "x0", "B"⟩] := ⟨_, rfl, by decide⟩
+
+example : ∃ s', changeTarget { payments := [⟨"A", "x0", "B"⟩, ⟨"A", "x1", "B"⟩, ⟨"C", "x0", "B"⟩] } "A" "x0" "D" = .ok s' ∧
+    s'.payments = [⟨"A", "x0", "D"⟩, ⟨"A", "x1", "B"⟩, ⟨"C", "x0", "B"⟩] := ⟨_, rfl, by decide⟩
+
+/-! ### Governance-only endpoints -/
+
+/-- A governance-only endpoint lets a caller through iff its text spells the authority's address
+and — in the handlers that compare the two strings with `!=` instead of `strings.EqualFold` — is
+the usual lower-case text. -/
+theorem gov_allowed_iff (s : State) (n k : String) (c : Text) :
+    govAllowed s n k c = true ↔
+      c.fold = s.authority ∧ (govFoldMsgs.contains (n, k) = true ∨ c.sp = .lower) := by
+  obtain ⟨a, sp⟩ := c
+  unfold govAllowed
+  by_cases hf : govFoldMsgs.contains (n, k) = true
+  · simp only [hf, if_true, true_or, and_true]; simp [Text.fold]
+  · simp only [hf, Bool.false_eq_true, if_false, false_or]
+    simp [Text.of, Text.fold]
+
+/-- Only the authority gets through (whatever the module, whatever the spelling) … -/
+theorem gov_only_authority (s : State) (n k : String) (c : Text) (h : govAllowed s n k c = true) :
+    c.fold = s.authority := ((gov_allowed_iff s n k c).mp h).1
+
+/-- … and the authority, under the text the keeper itself holds, always does. -/
+theorem gov_authority_passes (s : State) (n k : String) : govAllowed s n k (Text.of s.authority) = true :=
+  (gov_allowed_iff s n k _).mpr ⟨rfl, Or.inr rfl⟩
 
 /-- Whatever a governance-only request names — any market, any subject account (the caller
 itself included), any denom, any kind of name — and whatever the caller holds (any grants, on
-any market, any orders, any payments): a caller other than the authority is turned away and
-nothing changes; the authority is let through. -/
-theorem gov_result_ignores_payload_and_standing (s : State) (n c : String) (p : GovPayload) :
-    applyOp s (.gov n c p) = (s, if c = s.authority then "pass" else "err:authority") := by
-  by_cases h : c = s.authority <;> simp [applyOp, govAllowed, h]
+any market, any orders, any payments): the answer depends on the caller's text and the
+authority only, and nothing changes. -/
+theorem gov_result_ignores_payload_and_standing (s : State) (n k : String) (c : Text) (p : GovPayload) :
+    applyOp s (.gov n k c p) =
+      (s, if c.fold = s.authority ∧ (govFoldMsgs.contains (n, k) = true ∨ c.sp = .lower)
+          then "pass" else "err:authority") := by
+  have h := gov_allowed_iff s n k c
+  by_cases hg : govAllowed s n k c = true
+  · simp only [applyOp, hg, if_true, h.mp hg, and_self]
+  · have : ¬ (c.fold = s.authority ∧ (govFoldMsgs.contains (n, k) = true ∨ c.sp = .lower)) :=
+      fun hc => hg (h.mpr hc)
+    simp only [applyOp, hg, Bool.false_eq_true, if_false, this]
 
-theorem gov_rejects_every_non_authority (s : State) (n c : String) (p : GovPayload)
-    (h : c ≠ s.authority) : applyOp s (.gov n c p) = (s, "err:authority") := by
+/-- A caller other than the authority — under every spelling — is turned away and nothing changes. -/
+theorem gov_rejects_every_non_authority (s : State) (n k : String) (c : Text) (p : GovPayload)
+    (h : c.fold ≠ s.authority) : applyOp s (.gov n k c p) = (s, "err:authority") := by
   rw [gov_result_ignores_payload_and_standing]; simp [h]
 
-example : (applyOp { grants := Perm.all.map fun p => (1, "A", p) } (.gov "exchange.MsgGovCloseMarketRequest" "A"
-    { market := 1, subject := "A" })).2 = "err:authority" := by decide
+example : (applyOp { grants := Perm.all.map fun p => (1, "A", p) } (.gov "exchange" "MsgGovCloseMarketRequest" ⟨"A", .upper⟩
+    { market := 1, subject := "A" })).2 = "err:authority" ∧
+    (applyOp {} (.gov "exchange" "MsgGovCloseMarketRequest" ⟨"GOV", .upper⟩ { market := 1 })).2 = "pass" ∧
+    (applyOp {} (.gov "sanction" "MsgSanction" ⟨"GOV", .upper⟩ {})).2 = "err:authority" ∧
+    (applyOp {} (.gov "sanction" "MsgSanction" ⟨"GOV", .lower⟩ {})).2 = "pass" := by decide
 
 private theorem long_prefix_ne_ok (pre n : String) (h : 2 < pre.length) : pre ++ n ≠ "ok" := by
   intro e
@@ -460,16 +793,22 @@ private theorem long_prefix_ne_ok (pre n : String) (h : 2 < pre.length) : pre ++
   omega
 
 /-- The checker's governance clause is exact on the observed result: an executed request
-(`pass #ok`) is reported iff the caller is not the authority; a caller that was turned away
-(`err:authority`) is reported iff it IS the authority; whatever the payload and the state. -/
-theorem gov_checker_exact (s : State) (n c : String) (p : GovPayload) :
-    (verdict s (.gov n c p) "pass" "#ok" = "ok" ↔ c = s.authority) ∧
-    (verdict s (.gov n c p) "err:authority" "" = "ok" ↔ c ≠ s.authority) := by
+(`pass #ok`) is reported iff the model's guard rejects the caller (by `gov_only_authority`: in
+particular whenever the caller is not the authority); a caller that was turned away
+(`err:authority`) is reported iff the guard lets it through; whatever the payload and the state. -/
+theorem gov_checker_exact (s : State) (n k : String) (c : Text) (p : GovPayload) :
+    (verdict s (.gov n k c p) "pass" "#ok" = "ok" ↔ govAllowed s n k c = true) ∧
+    (verdict s (.gov n k c p) "err:authority" "" = "ok" ↔ govAllowed s n k c = false) := by
   have e1 : ("fail:gov_rejects_authority:" : String).length = 27 := by decide
   have e2 : ("fail:gov_endpoint_open:" : String).length = 23 := by decide
-  have n1 := long_prefix_ne_ok "fail:gov_rejects_authority:" n (by omega)
-  have n2 := long_prefix_ne_ok "fail:gov_endpoint_open:" n (by omega)
-  by_cases h : c = s.authority <;> simp [verdict, govAllowed, h, toString] <;> assumption
+  have n1 := long_prefix_ne_ok "fail:gov_rejects_authority:" (n ++ "." ++ k) (by omega)
+  have n2 := long_prefix_ne_ok "fail:gov_endpoint_open:" (n ++ "." ++ k) (by omega)
+  cases h : govAllowed s n k c <;> simp [verdict, h, toString] <;> assumption
+
+/-- Hence: an executed governance request of a caller who is not the authority is always reported. -/
+theorem gov_checker_reports_non_authority (s : State) (n k : String) (c : Text) (p : GovPayload)
+    (h : c.fold ≠ s.authority) : verdict s (.gov n k c p) "pass" "#ok" ≠ "ok" :=
+  fun hv => h (gov_only_authority s n k c ((gov_checker_exact s n k c p).1.mp hv))
 
 /-- The frame checker accepts exactly the canonical rendering of the model's own grants. -/
 theorem dump_checker_accepts_exact_effect (s : State) :
@@ -521,25 +860,71 @@ def nonGovAuthority : List (String × String) := [
   ("oracle", "MsgSendQueryOracleRequest"),      -- any account
   ("trigger", "MsgDestroyTriggerRequest")]      -- trigger owner
 
-def validateAuthorityOk (m : String) : Bool :=
-  match lookup Generated.guardBodies (m ++ ".Keeper.ValidateAuthority") with
-  | none => true
-  | some b =>
-    b == "{ if !k.IsAuthority(addr) { return govtypes.ErrInvalidSigner.Wrapf(\"expected %q got %q\", k.GetAuthority(), addr) } return nil }"
-      && lookup Generated.guardBodies (m ++ ".Keeper.IsAuthority") == some "{ return strings.EqualFold(k.authority, addr) }"
-    || b == "{ if k.authority != addr { return govtypes.ErrInvalidSigner.Wrapf(\"expected %q got %q\", k.authority, addr) } return nil }"
+/-- the two bodies of a `Keeper.ValidateAuthority` that are understood -/
+def validateAuthorityFoldBody : String :=
+  "{ if !k.IsAuthority(addr) { return govtypes.ErrInvalidSigner.Wrapf(\"expected %q got %q\", k.GetAuthority(), addr) } return nil }"
+def validateAuthorityExactBody : String :=
+  "{ if k.authority != addr { return govtypes.ErrInvalidSigner.Wrapf(\"expected %q got %q\", k.authority, addr) } return nil }"
+def isAuthorityFoldBody : String := "{ return strings.EqualFold(k.authority, addr) }"
+
+/-- How the authority guard of a handler compares the keeper's authority with `msg.Authority`,
+read off the source: `some false` = exactly (`!=` in the handler itself, guard form
+`authority:cmp`, or a `ValidateAuthority` whose body is the `!=` one), `some true` = up to case
+(`ValidateAuthority` → `IsAuthority` → `strings.EqualFold`), `none` = NOT UNDERSTOOD — in
+particular a handler calling `ValidateAuthority` in a module for which no such body was found
+(no silent acceptance: the modules without a `ValidateAuthority` — msgfees, oracle, sanction, and
+most handlers of marker and name — are accepted only because their handlers carry the `!=`
+comparison themselves). -/
+def authorityCompare (h : Handler) : Option Bool :=
+  if h.guard == "authority:cmp" then some false
+  else if h.guard == "authority:ValidateAuthority" then
+    match lookup Generated.guardBodies (h.module ++ ".Keeper.ValidateAuthority") with
+    | none => none
+    | some b =>
+      if b == validateAuthorityFoldBody then
+        (if lookup Generated.guardBodies (h.module ++ ".Keeper.IsAuthority") == some isAuthorityFoldBody
+          then some true else none)
+      else if b == validateAuthorityExactBody then some false
+      else none
+  else none
 
 /-- **Every** handler of **every** module whose request is signed by `authority` starts (after
-at most the context unwrap) with the authority comparison, or rejects everything, or is on
-the documented exception list — including handlers added later: the handler list itself is
-regenerated. -/
+at most the context unwrap) with an authority comparison that is understood AND is the one the
+model's `govAllowed` uses for that message (case-folding iff listed in `govFoldMsgs`), or
+rejects everything, or is on the documented exception list — including handlers added later: the
+handler list itself is regenerated. -/
 def govHandlerOk (h : Handler) : Bool :=
   !h.hasAuthorityField ||
-    ((h.guard == "authority" && h.pre.all (· == "unwrap") && validateAuthorityOk h.module)
+    ((authorityCompare h == some (govFoldMsgs.contains (h.module, h.req)) && h.pre.all (· == "unwrap"))
       || h.guard == "rejectall" || nonGovAuthority.contains (h.module, h.req))
 
 set_option maxRecDepth 100000 in
 theorem gov_handlers_guarded : Generated.handlers.all govHandlerOk = true := by decide
+
+/-- What guard the handlers of each module use, spelled out: the handlers guarded by a direct
+`!=` comparison, those going through `ValidateAuthority`, and — for the latter — that the
+module does have a `ValidateAuthority` whose body is one of the two understood ones. -/
+def modulesComparingInHandler : List String :=
+  (Generated.handlers.filter (·.guard == "authority:cmp")).map (·.module) |>.eraseDups
+def modulesUsingValidateAuthority : List String :=
+  (Generated.handlers.filter (·.guard == "authority:ValidateAuthority")).map (·.module) |>.eraseDups
+
+set_option maxRecDepth 100000 in
+theorem gov_guard_forms :
+    modulesComparingInHandler = ["marker", "msgfees", "name", "oracle", "sanction"] ∧
+    modulesUsingValidateAuthority = ["attribute", "exchange", "ibchooks", "ibcratelimit", "marker", "name"] ∧
+    (modulesUsingValidateAuthority.all fun m =>
+      let b := lookup Generated.guardBodies (m ++ ".Keeper.ValidateAuthority")
+      b == some validateAuthorityFoldBody || b == some validateAuthorityExactBody) = true := by
+  decide
+
+/-- The model's table of case-folding governance handlers is exactly what the source says:
+a handler folds case iff it is listed. -/
+def foldingHandlers : List (String × String) :=
+  (Generated.handlers.filter fun h => h.hasAuthorityField && authorityCompare h == some true).map fun h => (h.module, h.req)
+
+set_option maxRecDepth 100000 in
+theorem gov_compare_kind_matches_source : foldingHandlers = govFoldMsgs := by decide
 
 /-- The documented governance-only messages (proto `cosmos.msg.v1.signer = "authority"` +
 module specs), written by hand. -/
@@ -561,7 +946,7 @@ def expectedGovOnly : List (String × String) := [
   ("sanction", "MsgSanction"), ("sanction", "MsgUnsanction"), ("sanction", "MsgUpdateParams")]
 
 def expectedPresent (e : String × String) : Bool :=
-  Generated.handlers.any fun h => h.module == e.1 && h.req == e.2 && h.guard == "authority" && h.pre.all (· == "unwrap")
+  Generated.handlers.any fun h => h.module == e.1 && h.req == e.2 && (authorityCompare h).isSome && h.pre.all (· == "unwrap")
 
 set_option maxRecDepth 100000 in
 theorem expected_gov_only_all_guarded : expectedGovOnly.all expectedPresent = true := by decide
